@@ -18,7 +18,8 @@ LEVEL_TEXT = ("Every CPDAG returned for the workload is compared entry-wise with
 LEVEL_NOTE = "Trusted: brute-force class table (counts re-derived each run). Beyond p=5 sampled, <= 12 edges."
 RULE = ("cases: DAG codes -> dag_to_cpdag; PDAG codes with acyclic directed part -> pdag_to_cpdag (ValueError iff no "
         "consistent extension); weighted copies; sampled p 6..8.  distinct = distinct (family, graph, weights); "
-        "non-trivial = class size >= 2, or a compelled edge outside every v-structure, or no extension")
+        "non-trivial = class size >= 2, or a compelled edge outside every v-structure, or no extension"
+        ' Also: relabelled embeddings (random / hash-hostile) of the small graphs, named shapes, 1,600 sparse DAGs on 10-14 nodes, array presentations, minute weights, repeat after the caller overwrote the result.')
 ASSUMPTIONS = ["brute-force oracle correct (self-check counts)", "PDAGs with cyclic directed part are out of the quantifier (counted only)"]
 EXHAUSTIVE = {"quick": True, "thorough": True}
 SOFT_LIMIT = {"quick": 240, "thorough": 1700}
